@@ -680,7 +680,7 @@ def gen_to_schema(repo):
                 "molecule['fragments'] = [fr.tolist() for fr in fidx]"]:
         fail(f"to_schema: fragment export changed: {frag}")
     text = """(* generated by harness/translate/c09_schema.py from molparse/to_schema.py (AST); do not edit *)
-From Coq Require Import QArith Bool.
+From Coq Require Import QArith Bool List.
 Require Import QV.Common.Outcome.
 Inductive lunit := Bohr | Angstrom | OtherUnit.
 Definition lunit_eqb (a b : lunit) : bool :=
@@ -693,10 +693,280 @@ Definition geom_factor (molrec_units units : lunit) (iu2au : option Q) (conv : Q
   else if lunit_eqb molrec_units Angstrom && lunit_eqb units Bohr && (match iu2au with Some _ => true | None => false end)
        then match iu2au with Some f => f | None => 1 end
   else conv.
+(* the same branch as an action on the coordinate list: `pass` leaves the list as it is *)
+Definition geom_scale (molrec_units units : lunit) (iu2au : option Q) (conv : Q) (g : list Q) : list Q :=
+  if lunit_eqb molrec_units Bohr && lunit_eqb units Bohr then g
+  else List.map (fun x => (x * geom_factor molrec_units units iu2au conv)%Q) g.
 (* `elif dtype in [1, 2]: if units != "Bohr": raise ValidationError` *)
 Definition qcschema_units_guard (units : lunit) : outcome unit :=
   if negb (lunit_eqb units Bohr) then Err Validation else Ok tt.
 """
+    return text
+
+
+# ------------------------------------------------------------------------------------------------
+# to_schema.py / from_schema.py: which molrec key goes to which schema key and back (AST, fail closed) -> Gen/SchemaKeys.v
+
+def _sub_key(node, base):
+    """`base["k"]` -> k"""
+    if isinstance(node, ast.Subscript) and isinstance(node.value, ast.Name) and node.value.id == base \
+            and isinstance(node.slice, ast.Constant) and isinstance(node.slice.value, str):
+        return node.slice.value
+    return None
+
+
+def _value_source(v):
+    """the right-hand side of `molecule[k] = ...` in the QCSchema branch of to_schema: a value-preserving wrapper around
+    molrec[key] (np.array(x, copy=copy), np.array(x).tolist(), deepcopy(x), x), or one of the locals geom / name / True"""
+    if isinstance(v, ast.Constant) and v.value is True:
+        return "SConstTrue"
+    if isinstance(v, ast.Name) and v.id == "geom":
+        return "SGeom"
+    if isinstance(v, ast.Name) and v.id == "name":
+        return "SName"
+    k = _sub_key(v, "molrec")
+    if k is not None:
+        return f"(SRec {cstr(k)})"
+    if isinstance(v, ast.Call):
+        src = _src(v.func)
+        if src == "np.array" and len(v.args) == 1 and [(_k.arg, _src(_k.value)) for _k in v.keywords] in ([("copy", "copy")], []):
+            k = _sub_key(v.args[0], "molrec")
+            if k is not None:
+                return f"(SRec {cstr(k)})"
+        if src == "deepcopy" and len(v.args) == 1 and not v.keywords:
+            k = _sub_key(v.args[0], "molrec")
+            if k is not None:
+                return f"(SRec {cstr(k)})"
+        if isinstance(v.func, ast.Attribute) and v.func.attr == "tolist" and not v.args and not v.keywords:
+            return _value_source(v.func.value)
+    if isinstance(v, ast.ListComp) and _src(v) == "[fr.tolist() for fr in fidx]":
+        return "SFrags"
+    return None
+
+
+def gen_schema_keys(repo):
+    # ---- to_schema: the statements of the `dtype in [1, 2]` branch
+    with open(os.path.join(repo, "qcelemental", "molparse", "to_schema.py")) as fh:
+        tree = ast.parse(fh.read())
+    fn = next((n for n in tree.body if isinstance(n, ast.FunctionDef) and n.name == "to_schema"), None)
+    if fn is None:
+        fail("to_schema not found")
+    sig = [a.arg for a in fn.args.args] + [a.arg for a in fn.args.kwonlyargs]
+    dfl = [_src(d) for d in fn.args.defaults] + [_src(d) for d in fn.args.kw_defaults]
+    if sig != ["molrec", "dtype", "units", "np_out", "copy"] or dfl[:1] != ["'Bohr'"]:
+        fail(f"to_schema: signature changed (units must default to 'Bohr'): {sig} {dfl}")
+    disp = next((st for st in fn.body if isinstance(st, ast.If) and _src(st.test) == "dtype == 'psi4'"), None)
+    if disp is None or len(disp.orelse) != 1 or not isinstance(disp.orelse[0], ast.If) or _src(disp.orelse[0].test) != "dtype in [1, 2]":
+        fail("to_schema: dtype dispatch changed shape")
+    qc = disp.orelse[0]
+    if len(qc.orelse) != 1 or not isinstance(qc.orelse[0], ast.Raise) or not _src(qc.orelse[0].exc).startswith("ValidationError("):
+        fail("to_schema: an unknown dtype is no longer refused with ValidationError")
+    names = [_src(st) for st in fn.body if isinstance(st, ast.Assign) and _src(st.targets[0]) == "name"]
+    if names != ["name = molrec.get('name', formula_generator(molrec['elem']))"]:
+        fail(f"to_schema: `name` changed: {names}")
+    nats = [_src(st) for st in fn.body if isinstance(st, ast.Assign) and _src(st.targets[0]) == "nat"]
+    if nats != ["nat = geom.shape[0] // 3"]:
+        fail(f"to_schema: `nat` changed: {nats}")
+    fields, header = [], {}
+    for st in qc.body[1:]:        # qc.body[0] is the Bohr guard (checked by gen_to_schema)
+        if isinstance(st, ast.AnnAssign) and _src(st.target) == "molecule" and _src(st.value) == "{}":
+            continue
+        if isinstance(st, ast.Assign) and _src(st.targets[0]) == "fidx":
+            continue                                     # shape pinned by gen_to_schema
+        cond = None
+        body = st
+        if isinstance(st, ast.If) and _src(st.test) == "dtype == 1":
+            # the two headers
+            def hdr(dnode):
+                """{'schema_name': <str>, 'schema_version': <int>[, <str>: molecule]} -> (name, version, nested key)"""
+                if not (isinstance(dnode, ast.Dict) and all(isinstance(k, ast.Constant) and isinstance(k.value, str) for k in dnode.keys)):
+                    fail("to_schema: header is not a dict literal: " + _src(dnode)[:200])
+                kv = {k.value: v for k, v in zip(dnode.keys, dnode.values)}
+                nm, vr = kv.pop("schema_name", None), kv.pop("schema_version", None)
+                if not (isinstance(nm, ast.Constant) and isinstance(nm.value, str) and isinstance(vr, ast.Constant) and type(vr.value) is int):
+                    fail("to_schema: header name/version are not literals: " + _src(dnode)[:200])
+                nested = None
+                if kv:
+                    if len(kv) != 1 or _src(list(kv.values())[0]) != "molecule":
+                        fail("to_schema: unsupported header keys: " + _src(dnode)[:200])
+                    nested = list(kv)[0]
+                return nm.value, vr.value, nested
+            e = st.orelse[0] if len(st.orelse) == 1 else None
+            if not (len(st.body) == 1 and isinstance(st.body[0], ast.Assign) and _src(st.body[0].targets[0]) == "qcschema"
+                    and isinstance(e, ast.If) and _src(e.test) == "dtype == 2" and not e.orelse and len(e.body) == 2
+                    and _src(e.body[0]) == "qcschema = molecule" and isinstance(e.body[1], ast.Expr) and isinstance(e.body[1].value, ast.Call)
+                    and _src(e.body[1].value.func) == "qcschema.update" and len(e.body[1].value.args) == 1):
+                fail("to_schema: schema_name / schema_version headers changed shape: " + _src(st)[:300])
+            h1, h2 = hdr(st.body[0].value), hdr(e.body[1].value.args[0])
+            if h1[2] is None or h2[2] is not None:
+                fail("to_schema: dtype 1 must nest the molecule and dtype 2 must not: " + _src(st)[:300])
+            header = {1: h1, 2: h2}
+            continue
+        if isinstance(st, ast.If):
+            t = st.test
+            if not (isinstance(t, ast.Compare) and len(t.ops) == 1 and isinstance(t.ops[0], ast.In) and isinstance(t.left, ast.Constant)
+                    and isinstance(t.left.value, str) and _src(t.comparators[0]) == "molrec" and len(st.body) == 1 and not st.orelse):
+                fail("to_schema: unsupported conditional in the QCSchema branch: " + _src(st)[:200])
+            cond, body = t.left.value, st.body[0]
+        if not (isinstance(body, ast.Assign) and len(body.targets) == 1):
+            fail("to_schema: unsupported statement in the QCSchema branch: " + _src(st)[:200])
+        sk = _sub_key(body.targets[0], "molecule")
+        srcv = _value_source(body.value)
+        if sk is None or srcv is None:
+            fail("to_schema: unsupported export statement: " + _src(body)[:200])
+        if cond is not None and srcv != f"(SRec {cstr(cond)})":
+            fail("to_schema: a conditional export tests a different key than it copies: " + _src(st)[:200])
+        fields.append((sk, srcv, cond is not None))
+    if not header:
+        fail("to_schema: headers not found")
+    if len({f[0] for f in fields}) != len(fields):
+        fail("to_schema: a schema key is written twice")
+    tail = [_src(st) for st in fn.body[fn.body.index(disp) + 1:]]
+    if tail != ["if not np_out:\n    qcschema = unnp(qcschema)", "return qcschema"]:
+        fail(f"to_schema: tail changed: {tail}")
+    # ---- from_schema
+    with open(os.path.join(repo, "qcelemental", "molparse", "from_schema.py")) as fh:
+        tree = ast.parse(fh.read())
+    fs = next((n for n in tree.body if isinstance(n, ast.FunctionDef) and n.name == "from_schema"), None)
+    if fs is None:
+        fail("from_schema not found")
+    body = [st for st in fs.body if not (isinstance(st, ast.Expr) and isinstance(st.value, ast.Constant))]
+    if len(body) != 6:
+        fail(f"from_schema: expected 6 statements, found {len(body)}")
+    sniff, frag, contig, fa, prov, ret = body
+    get_name = "molschema.get('schema_name', '')"
+    get_ver = "molschema.get('schema_version', '')"
+
+    def prefixes(node):
+        """a.startswith(p) [or a.startswith(q) ...] on molschema.get('schema_name', '')"""
+        alts = node.values if isinstance(node, ast.BoolOp) and isinstance(node.op, ast.Or) else [node]
+        out = []
+        for a in alts:
+            if not (isinstance(a, ast.Call) and isinstance(a.func, ast.Attribute) and a.func.attr == "startswith"
+                    and _src(a.func.value) == get_name and len(a.args) == 1 and isinstance(a.args[0], ast.Constant)
+                    and isinstance(a.args[0].value, str)):
+                fail("from_schema: unsupported schema_name test: " + _src(node)[:200])
+            out.append(a.args[0].value)
+        return out
+
+    def rule(ifnode):
+        t = ifnode.test
+        if not (isinstance(t, ast.BoolOp) and isinstance(t.op, ast.And) and len(t.values) == 2):
+            fail("from_schema: version sniffing changed shape: " + _src(t)[:300])
+        pf = prefixes(t.values[0])
+        c = t.values[1]
+        if not (isinstance(c, ast.Compare) and _src(c.left) == get_ver and len(c.ops) == 1 and isinstance(c.ops[0], ast.Eq)
+                and isinstance(c.comparators[0], ast.Constant) and type(c.comparators[0].value) is int):
+            fail("from_schema: unsupported schema_version test: " + _src(c)[:200])
+        if len(ifnode.body) != 1:
+            fail("from_schema: version sniffing body changed")
+        b = _src(ifnode.body[0])
+        if b == "ms = molschema['molecule']":
+            nested = "molecule"
+        elif b == "ms = molschema":
+            nested = None
+        else:
+            fail("from_schema: unsupported selection " + b)
+        return pf, c.comparators[0].value, nested
+
+    if not isinstance(sniff, ast.If) or len(sniff.orelse) != 1 or not isinstance(sniff.orelse[0], ast.If):
+        fail("from_schema: version sniffing changed shape")
+    r1, second = rule(sniff), sniff.orelse[0]
+    r2 = rule(second)
+    if not (len(second.orelse) == 1 and isinstance(second.orelse[0], ast.Raise) and _src(second.orelse[0].exc).startswith("ValidationError(")):
+        fail("from_schema: an unrecognised schema is no longer refused with ValidationError")
+    if _src(frag) != "if 'fragments' in ms:\n    frag_pattern = ms['fragments']\nelse:\n    frag_pattern = [np.arange(len(ms['symbols']))]":
+        fail("from_schema: fragment pattern selection changed: " + _src(frag))
+
+    def read_of(v):
+        """ms['k'] -> (k, required) ; ms.get('k', None) -> (k, optional)"""
+        k = _sub_key(v, "ms")
+        if k is not None:
+            return k, True
+        if isinstance(v, ast.Call) and _src(v.func) == "ms.get" and len(v.args) == 2 and isinstance(v.args[0], ast.Constant) \
+                and isinstance(v.args[0].value, str) and isinstance(v.args[1], ast.Constant) and v.args[1].value is None and not v.keywords:
+            return v.args[0].value, False
+        return None
+
+    if not (isinstance(contig, ast.Assign) and _src(contig.targets[0]) == "dcontig" and isinstance(contig.value, ast.Call)
+            and _src(contig.value.func) == "contiguize_from_fragment_pattern" and [_src(a) for a in contig.value.args] == ["frag_pattern"]):
+        fail("from_schema: contiguize call changed shape")
+    via = {}
+    for kw in contig.value.keywords:
+        if kw.arg == "throw_reorder":
+            if _src(kw.value) != "True":
+                fail("from_schema: throw_reorder is no longer True")
+            continue
+        rd = read_of(kw.value)
+        if rd is None:
+            fail(f"from_schema: unsupported contiguize argument {kw.arg}={_src(kw.value)}")
+        via[kw.arg] = rd
+    if "throw_reorder" not in [kw.arg for kw in contig.value.keywords]:
+        fail("from_schema: throw_reorder not passed")
+    if not (isinstance(fa, ast.Assign) and _src(fa.targets[0]) == "molrec" and isinstance(fa.value, ast.Call)
+            and _src(fa.value.func) == "from_arrays" and not fa.value.args):
+        fail("from_schema: from_arrays call changed shape")
+    reads, consts = [], []
+    for kw in fa.value.keywords:
+        k = _sub_key(kw.value, "dcontig")
+        if k is not None:
+            if k == "fragment_separators":
+                reads.append((kw.arg, "fragments", False, True))
+                continue
+            if k != kw.arg or k not in via:
+                fail(f"from_schema: {kw.arg}=dcontig[{k!r}] is not an array handed to contiguize under the same name")
+            reads.append((kw.arg, via[k][0], via[k][1], True))
+            continue
+        rd = read_of(kw.value)
+        if rd is not None:
+            reads.append((kw.arg, rd[0], rd[1], False))
+            continue
+        if isinstance(kw.value, ast.Constant) or (isinstance(kw.value, ast.Name) and kw.value.id in ("nonphysical", "verbose") and kw.value.id == kw.arg):
+            consts.append((kw.arg, _src(kw.value)))
+            continue
+        fail(f"from_schema: unsupported from_arrays argument {kw.arg}={_src(kw.value)}")
+    if len({r[0] for r in reads}) != len(reads):
+        fail("from_schema: a from_arrays argument is given twice")
+    if _src(prov) != "molrec['provenance'] = provenance_stamp(__name__)" or _src(ret) != "return molrec":
+        fail("from_schema: tail changed")
+    # ---- defaults of from_arrays that from_schema relies on (it does not pass these arguments)
+    import inspect
+    from qcelemental.molparse import from_arrays as fa_fn
+    ps = inspect.signature(fa_fn).parameters
+    passed = {r[0] for r in reads} | {c[0] for c in consts}
+    need = ["tooclose", "zero_ghost_fragments", "mtol", "missing_enabled_return"]
+    for k in need:
+        if k in passed:
+            fail(f"from_schema now passes {k} to from_arrays")
+        if k not in ps:
+            fail(f"from_arrays has no parameter {k}")
+    tooclose, zgf, mtol, mer = (ps[k].default for k in need)
+    if not (isinstance(tooclose, float) and isinstance(mtol, float) and zgf in (False, True) and isinstance(mer, str)):
+        fail("from_arrays: unexpected defaults")
+    from decimal import Decimal
+    dq = lambda x: cq(Fraction(Decimal(repr(x))))
+    srcs = "Inductive src := SRec (k : string) | SGeom | SName | SFrags | SConstTrue."
+    text = "\n".join([
+        "(* generated by harness/translate/c09_schema.py from molparse/to_schema.py, from_schema.py (AST) and the signature of from_arrays; do not edit *)",
+        "From Coq Require Import ZArith QArith List String.", "Import ListNotations.", "Open Scope string_scope.", srcs,
+        "(* `molecule[schema key] = <value-preserving wrapper>(source)`; true = only `if key in molrec` *)",
+        "Definition to_schema_fields : list (string * src * bool) :=\n  " + clist(fields, lambda f: f"({cstr(f[0])}, {f[1]}, {cbool(f[2])})") + ".",
+        "(* dtype -> (schema_name, schema_version, key under which the molecule is nested) *)",
+        "Definition to_schema_header (dtype : Z) : option (string * Z * option string) :=\n  " +
+        " else ".join(f"if (dtype =? {k})%Z then Some ({cstr(h[0])}, {cz(h[1])}, {copt(h[2], cstr)})" for k, h in sorted(header.items())) + " else None.",
+        "(* from_schema's recognition rules, in order: (accepted schema_name prefixes, schema_version, nested key) *)",
+        "Definition from_schema_rules : list (list string * Z * option string) :=\n  " +
+        clist([r1, r2], lambda r: f"({clist(r[0], cstr)}, {cz(r[1])}, {copt(r[2], cstr)})") + ".",
+        "(* from_arrays keyword <- schema key (required = ms[key], otherwise ms.get(key, None); routed through contiguize?) *)",
+        "Definition from_schema_reads : list (string * string * bool * bool) :=\n  " +
+        clist(reads, lambda r: f"({cstr(r[0])}, {cstr(r[1])}, {cbool(r[2])}, {cbool(r[3])})") + ".",
+        "(* from_arrays keywords that from_schema fixes (Python source of the value) *)",
+        "Definition from_schema_consts : list (string * string) :=\n  " + clist(consts, lambda c: f"({cstr(c[0])}, {cstr(c[1])})") + ".",
+        "(* defaults of from_arrays that from_schema relies on *)",
+        f"Definition fa_default_tooclose : Q := {dq(tooclose)}.",
+        f"Definition fa_default_mtol : Q := {dq(mtol)}.",
+        f"Definition fa_default_zero_ghost_fragments : bool := {cbool(bool(zgf))}.",
+        f"Definition fa_default_missing_enabled_return : string := {cstr(mer)}.", ""])
     return text
 
 
@@ -708,8 +978,10 @@ def generate(repo):
     stext, schemas = gen_schemas(models)
     ftext, ft = gen_fieldtypes(models)
     ttext = gen_to_schema(repo)
+    ktext = gen_schema_keys(repo)
     gen = os.path.join(coqrun.COQ, "Gen")
     coqrun.write_if_changed(os.path.join(gen, "Schemas.v"), stext)
     coqrun.write_if_changed(os.path.join(gen, "FieldTypes.v"), ftext)
     coqrun.write_if_changed(os.path.join(gen, "ToSchemaGen.v"), ttext)
+    coqrun.write_if_changed(os.path.join(gen, "SchemaKeys.v"), ktext)
     return {"models": models, "schemas": schemas, "all_models": ft.models, "array_fields": ft.array_fields}
